@@ -48,7 +48,7 @@ func diffLogs(a, b [][]string) string {
 func C37(c *core.Ctx) {
 	c.Rule("twin runs: a script with every random choice drawn up front (transactions with sets/deletes/meta/past+future expiry, write batches cutting several internal " +
 		"transactions, rotate+flush, production-picker and forced compactions, DropPrefix, DropAll) is executed on an InMemory database and on an on-disk database with the same " +
-		"options; after every flush/compaction/drop both states are compared with the model and, line by line (key, version, value digest, meta, expiry, both directions), with " +
+		"options (every third pair with SyncWrites, every fourth with VerifyValueChecksum and conflict detection off); after every flush/compaction/drop both states are compared with the model and, line by line (key, version, value digest, meta, expiry, both directions), with " +
 		"each other; a child process replays a script in InMemory mode under strace -f in an empty working directory: no creating/writing file system call outside /proc,/sys,/dev " +
 		"and the directory stays empty; distinct = (options, ops used: batch/dropprefix/dropall/compaction shapes) classes")
 	work := c.WorkDir()
@@ -79,6 +79,17 @@ func C37(c *core.Ctx) {
 					opt.MemTableSize = 64 << 10
 				}
 			}
+			// options that only mean something on disk (sync on every write, checksum verification, a
+			// separate value directory is not possible in memory) are given to both sides all the same
+			if i%3 == 1 {
+				opt.SyncWrites = true
+				name += "+syncwrites"
+			}
+			if i%4 == 2 {
+				opt.VerifyValueChecksum = true
+				opt.DetectConflicts = false
+				name += "+verifychecksum+noconflicts"
+			}
 			db, err := badger.Open(opt)
 			if err != nil {
 				c.Inconclusive("open " + name + ": " + err.Error())
@@ -96,7 +107,7 @@ func C37(c *core.Ctx) {
 			c.Violation("C37|twin-differs", "in-memory and on-disk runs of the same history read differently: "+d, map[string]any{"seed": seed, "ops": len(script)})
 		}
 		c.Count("twin.checks_compared", int64(len(logs[0])))
-		c.Distinct(fmt.Sprintf("variant=%d|batch=%v|dropprefix=%v|dropall=%v", i%6, used["batch"], used["dropprefix"], used["dropall"]))
+		c.Distinct(fmt.Sprintf("variant=%d|sync=%v|verify=%v|batch=%v|dropprefix=%v|dropall=%v", i%6, i%3 == 1, i%4 == 2, used["batch"], used["dropprefix"], used["dropall"]))
 		if i < 2 {
 			var ex []string
 			for _, op := range script[:min(12, len(script))] {
